@@ -65,3 +65,13 @@ package gsfa
 //@   requires a != nil && a.popRank != nil
 //@   fncall clone requires rankedAt(a.popRank, publicKey, written(a.popRank))
 //@   noframe
+
+// flushKVs hands LinkedLog.Put two closures. Literal #1 (the first one in source order after the deferred logger, see the
+// `$lit` ordinals in `vcgo dump`) answers "where is the previous record of this address": the zero pointer exactly when the
+// offsets map has no entry for the address, otherwise exactly what the map holds (offset 0 is a real location: the first
+// record of a fresh log). The map is a third-party hashmap (trusted); what is proved is how its answer is passed on.
+//@ func (*GsfaWriter) flushKVs
+//@   mode int
+//@   lit 1 ensures !ok ==> result0.Offset == 0 && result0.Size == 0 && result1 == nil
+//@   lit 1 ensures ok ==> result0.Offset == got[0] && result0.Size == got[1] && result1 == nil
+//@   noframe
